@@ -910,10 +910,14 @@ impl C16 {
                             _ => false,
                         });
                         if !long_string {
+                            // C16-a is labelled as such only when the model reproduces what was read
+                            // back exactly (so the only deviation is the absorbed fnt_num_52 byte)
+                            let c16a = i == canon_de_reply(m_de)
+                                && ops.windows(2).any(|w| matches!(w[0], Op::EndPostamble { .. }) && w[1] == Op::EnableFont(52));
                             out.fail(
                                 Kind::ImplVsSpec,
                                 "de_ser",
-                                format!("round trip: {}", diff_sig(ops, &got)),
+                                if c16a { "round trip: EnableFont(52) directly after EndPostamble is absorbed as padding".to_string() } else { format!("round trip: {}", diff_sig(ops, &got)) },
                                 format!("ops: {}\nbytes: {i_bytes}\nread back: {i}", join(&enc_ops(ops))),
                             );
                         }
